@@ -280,7 +280,7 @@ def combinators_direct(ctx, rng, n):
 def run(ctx):
     rng = ctx.rng
     thorough = ctx.tier == "thorough"
-    rounds = 80 if not thorough else 2500
+    rounds = 300 if not thorough else 4000
     for t in range(rounds):
         urls = valid_urls(rng)
         allu = list(urls.values())
